@@ -216,6 +216,44 @@ func (e *Engine) extend(g GKey, opt LiveOpt, keepLog bool) (ok bool, why string,
 		}
 	}
 	_ = byzReact
+	// "poisoner": right at the stabilisation point every Byzantine member sends, to every correct member, messages that
+	// are individually well signed but certify nothing — NEW_VIEWs for views it leads (the next ones and a far one)
+	// carrying only its own vote, VIEW_CHANGE / PREPARE / COMMIT for far views — and then stays silent. None of it may
+	// keep the correct members from electing their leaders and committing.
+	if opt.Strategy == "poisoner" {
+		H := primitives.BlockHeight(1)
+		n := uint64(len(cfg.C))
+		for _, b := range cfg.Byz {
+			f := byzF[b]
+			var views []uint64
+			for v := startView + 1; v <= startView+2*n; v++ {
+				if r.Leader(v) == string(cfg.C[b].ID) {
+					views = append(views, v)
+				}
+			}
+			views = append(views, uint64(b)+1000*n)
+			for _, v := range views {
+				for _, tag := range []string{"A"} {
+					blk := kit.NewBlock(1, tag)
+					ppb := f.CreatePreprepareMessageContentBuilder(H, primitives.View(v), blk, kit.HashOf(blk))
+					own := f.CreateViewChangeMessage(H, primitives.View(v), nil)
+					nv := f.CreateNewViewMessage(H, primitives.View(v), ppb, interfaces.ExtractConfirmationsFromViewChangeMessages([]*interfaces.ViewChangeMessage{own}), blk)
+					enqueue(b, nv.ToConsensusRawMessage(), allHonest())
+				}
+			}
+			far := primitives.View(uint64(b) + 1000*n + 1)
+			blk := kit.NewBlock(1, "A")
+			enqueue(b, f.CreatePrepareMessage(H, far, kit.HashOf(blk)).ToConsensusRawMessage(), allHonest())
+			enqueue(b, f.CreateCommitMessage(H, far, kit.HashOf(blk)).ToConsensusRawMessage(), allHonest())
+			for _, h := range allHonest() {
+				for k := uint64(1); k <= 2*n; k++ {
+					if v := startView + k; r.Leader(v) == string(cfg.C[h].ID) {
+						enqueue(b, f.CreateViewChangeMessage(H, primitives.View(v+n), nil).ToConsensusRawMessage(), []int{h}) // a vote for a later view this member leads
+					}
+				}
+			}
+		}
+	}
 	// initial timers and old messages
 	for s, node := range e.Honest {
 		n := nodes[node]
